@@ -197,7 +197,17 @@ func Generate(r *rand.Rand, cfg Config) *Set {
 			}
 			o := &Module{Name: m.Name, Prefix: m.Prefix, Namespace: m.Namespace, Revisions: []string{"2019-01-01"},
 				Imports: m.Imports, ImportPrefix: m.ImportPrefix, File: m.Name + "@2019-01-01.yang"}
-			o.Body = &Node{Kw: "module", Arg: m.Name, Kids: append([]*Node{}, m.Body.Kids...)}
+			o.Body = &Node{Kw: "module", Arg: m.Name}
+			for _, k := range m.Body.Kids {
+				if k.Kw == "grouping" {
+					// what the older revision exports differs, so that a stale link to it is visible
+					// in the trees of the modules that use it
+					c := &Node{Kw: k.Kw, Arg: k.Arg, Kids: append([]*Node{}, k.Kids...)}
+					c.add("leaf", "oldg").add("type", "string")
+					k = c
+				}
+				o.Body.Kids = append(o.Body.Kids, k)
+			}
 			o.Body.add("leaf", "oldrev").add("type", "string")
 			if g.chance(0.5) {
 				set.Mods = append(set.Mods, o)
